@@ -90,6 +90,10 @@ def groups(tier, seed):
             datas.append(("G%dx%d" % (n, m), X))
     for d, per in ((2, 2), (3, 1)) if tier == "quick" else ((2, 2), (2, 3), (3, 1), (3, 2)):
         datas.append(("clustered%d" % d, fam.clustered(d, per, seed)))
+    # the same geometry at very small / large scale (an absolute tolerance in the code shows here)
+    for sc, tag in ((1e-7, "tiny"), (1e5, "huge")):
+        datas.append(("clustered2-%s" % tag, (np.array(fam.clustered(2, 3, seed)) * sc).tolist()))
+        datas.append(("G6x4-%s" % tag, (np.array(fam.generic_list(6, 4, seed, 1)[0]) * sc).tolist()))
     # duplicated rows
     datas.append(("dup", [[0.5, 1.0, 2.0], [0.5, 1.0, 2.0], [3.0, -1.0, 0.0], [3.0, -1.0, 0.0], [1.0, 1.0, 1.0]]))
     out = []
@@ -98,6 +102,8 @@ def groups(tier, seed):
             for label, X in datas:
                 if kind == "PCovFPS" and label.startswith("L") and tier == "quick" and len(X) * len(X[0]) > 9:
                     continue  # big lattices x (y, mixing) only in the thorough tier
+                if kind == "PCovFPS" and (label.endswith("tiny") or label.endswith("huge")):
+                    continue  # the PCov distance has a documented absolute rank cut: scale is not free there
                 out.append(dict(kind=kind, dir=direction, label=label, X=X, tier=tier))
     return out
 
@@ -115,6 +121,15 @@ def _inits(N, big):
 
 
 def cases(group):
+    for c in _cases(group):
+        yield c
+        if not group["label"].startswith("L") and c["n"] >= 2 and c["init"] in (0, "random"):
+            c2 = dict(c)
+            c2["prefit"] = True  # the same fit on a USED selector (fitted before on other data of the same shape)
+            yield c2
+
+
+def _cases(group):
     X = group["X"]
     kind, direction = group["kind"], group["dir"]
     N = sel.n_items(X, direction)
@@ -165,12 +180,19 @@ def check(case):
     D, scale, ok = _refD(kind, direction, _tup(case["X"]), _tup(case["y"]), case["mixing"])
     if not ok:
         return r.skip("rank of X^T X not decidable at the implementation's absolute cut")
-    tol = 1e-9 * scale + 1e-12
+    tol = 1e-9 * scale + 1e-300
 
     params = dict(initialize=init, n_to_select=n)
     if kind == "PCovFPS":
         params["mixing"] = case["mixing"]
     s = sel.make(kind, direction, **params)
+    if case.get("prefit"):
+        Xo = X[::-1, ::-1].copy() * 0.75 + 0.125 * np.abs(X).max()
+        yo = None if y is None else (y[::-1].copy() * -0.5 + 0.25)
+        _, exc0 = sel.fit_quiet(s, Xo, yo)
+        if exc0 is not None:
+            return r.fail("crash:%s" % type(exc0).__name__, "first fit of the used selector: %r" % exc0)
+        r.count("fits_on_used_selector")
     rec = sel.StepRecorder(s, _snapshot)
     if not rec.ok:
         DEGRADED.add("no per-step snapshots (_update_post_selection not wrappable)")
